@@ -2,8 +2,15 @@
    reference interpreter Lang/Interp.v (forward simulation, Ok runs).
    Part 1: a folded constant is what evaluation yields, for ANY fuel (inversion form of C04's
    fold_agrees, which needs fuel >= depth).  Part 2: expressions.  Part 3: statements. *)
-From MJ Require Import Common.Base Lang.Syntax Lang.Meta Lang.Interp C04.Model C04.Spec C04.Proofs C03.Proofs
-  L2.Instr L2.Compile L2.Vm L2.Simulation.
+From MJ Require Import Common.Base Lang.Syntax Lang.Meta Lang.Interp.
+From MJ Require Import C04.Model.
+From MJ Require Import C04.Spec.
+From MJ Require Import C04.Proofs.
+From MJ Require Import C03.Proofs.
+From MJ Require Import L2.Instr.
+From MJ Require Import L2.Compile.
+From MJ Require Import L2.Vm.
+From MJ Require Import L2.Simulation.
 Local Open Scope nat_scope.
 
 (* ------------------------------------------------------------------------------------------ *)
@@ -508,10 +515,201 @@ Proof.
 Qed.
 
 
-(* ---- statements without loops, loop controls, macros and call blocks ---- *)
+(* ---- Part 3: statements ---- *)
 End Sim.
 
-Section SimStmt.
+(* induction principle for statements with their nested bodies *)
+Section StmtInd.
+Variable P : stmt -> Prop.
+Hypothesis Hraw : forall t, P (SRaw t).
+Hypothesis Hemit : forall e, P (SEmit e).
+Hypothesis Hif : forall arms els, Forall (fun p => Forall P (snd p)) arms ->
+  match els with Some b => Forall P b | None => True end -> P (SIf arms els).
+Hypothesis Hfor : forall t i f body els r, Forall P body ->
+  match els with Some b => Forall P b | None => True end -> P (SFor t i f body els r).
+Hypothesis Hset : forall x e, P (SSet x e).
+Hypothesis Hsetblock : forall x body f, Forall P body -> P (SSetBlock x body f).
+Hypothesis Hwith : forall binds body, Forall P body -> P (SWith binds body).
+Hypothesis Hmacro : forall m ps ds body, Forall P body -> P (SMacro m ps ds body).
+Hypothesis Hcall : forall m args body, Forall P body -> P (SCallBlock m args body).
+Hypothesis Hfb : forall f body, Forall P body -> P (SFilterBlock f body).
+Hypothesis Hae : forall v body, Forall P body -> P (SAutoEscape v body).
+Hypothesis Hbreak : P SBreak.
+Hypothesis Hcont : P SContinue.
+
+Fixpoint stmt_ind' (t : stmt) : P t :=
+  let go := fix go (l : list stmt) : Forall P l :=
+    match l with [] => Forall_nil P | x :: r => Forall_cons x (stmt_ind' x) (go r) end in
+  let goo (o : option (list stmt)) : match o with Some b => Forall P b | None => True end :=
+    match o with Some b => go b | None => I end in
+  match t with
+  | SRaw x => Hraw x
+  | SEmit e => Hemit e
+  | SIf arms els =>
+      Hif arms els
+        ((fix ga (a : list (expr * list stmt)) : Forall (fun p => Forall P (snd p)) a :=
+            match a with
+            | [] => Forall_nil _
+            | p :: r => Forall_cons p (match p as p0 return Forall P (snd p0) with (_, b) => go b end) (ga r)
+            end) arms)
+        (goo els)
+  | SFor tg i f body els r => Hfor tg i f body els r (go body) (goo els)
+  | SSet x e => Hset x e
+  | SSetBlock x body f => Hsetblock x body f (go body)
+  | SWith binds body => Hwith binds body (go body)
+  | SMacro m ps ds body => Hmacro m ps ds body (go body)
+  | SCallBlock m args body => Hcall m args body (go body)
+  | SFilterBlock f body => Hfb f body (go body)
+  | SAutoEscape v body => Hae v body (go body)
+  | SBreak => Hbreak
+  | SContinue => Hcont
+  end.
+End StmtInd.
+
+(* the length of a statement's code does not depend on where `break` jumps to *)
+Definition len_indep (t : stmt) : Prop :=
+  forall base i e e' p, length (compile_stmt t base (Some (mkL i e p))) = length (compile_stmt t base (Some (mkL i e' p))).
+
+Lemma seq_len_indep l : Forall len_indep l ->
+  forall base i e e' p, length (compile_stmts l base (Some (mkL i e p))) = length (compile_stmts l base (Some (mkL i e' p))).
+Proof.
+  induction 1 as [|x r Hx Hr IH]; intros base i e e' p; [reflexivity|].
+  unfold compile_stmts. cbn [seq_code].
+  fold (compile_stmts r (base + length (compile_stmt x base (Some (mkL i e p)))) (Some (mkL i e p))).
+  fold (compile_stmts r (base + length (compile_stmt x base (Some (mkL i e' p)))) (Some (mkL i e' p))).
+  rewrite !app_length. rewrite (Hx base i e e' p). f_equal. apply IH.
+Qed.
+
+Lemma if_len_indep els arms : Forall (fun p => Forall len_indep (snd p)) arms ->
+  match els with Some b => Forall len_indep b | None => True end ->
+  forall base i e e' p,
+    length (if_code (fun b pc => compile_stmts b pc (Some (mkL i e p))) els arms base) =
+    length (if_code (fun b pc => compile_stmts b pc (Some (mkL i e' p))) els arms base).
+Proof.
+  intros Ha Hels. induction Ha as [|[cnd body] r Hb Hr IH]; intros base i e e' p.
+  - cbn [if_code]. destruct els as [b|]; [apply seq_len_indep; exact Hels|reflexivity].
+  - cbn [if_code snd] in *.
+    fold (if_code (fun b pc => compile_stmts b pc (Some (mkL i e p))) els).
+    fold (if_code (fun b pc => compile_stmts b pc (Some (mkL i e' p))) els).
+    pose proof (seq_len_indep body Hb (base + length (compile_expr cnd base) + 1) i e e' p) as Hct.
+    destruct r as [|a2 r']; [destruct (nonempty_body els)|]; rewrite ?app_length; cbn [length]; rewrite ?app_length; cbn [length];
+      rewrite Hct; try reflexivity; rewrite (IH _ i e e' p); reflexivity.
+Qed.
+
+Lemma compile_len_indep : forall t, len_indep t.
+Proof.
+  apply stmt_ind'; unfold len_indep; intros; cbn [compile_stmt]; try reflexivity.
+  - (* SIf *) apply if_len_indep; assumption.
+  - (* SFor *)
+    destruct els as [[|x b]|]; try reflexivity.
+    rewrite ?app_length. cbn [length]. rewrite ?app_length. cbn [length].
+    match goal with |- context [seq_code _ (x :: b) ?pos] => pose proof (seq_len_indep (x :: b) H0 pos i0 e e' p) as HL end.
+    unfold compile_stmts in HL. lia.
+  - (* SSetBlock *) cbn [enter_scope lc_iter lc_end lc_pending]. rewrite ?app_length. cbn [length]. rewrite ?app_length.
+    pose proof (seq_len_indep body H (base + 1) i e e' (ClCapture :: p)) as HL. unfold compile_stmts in HL. lia.
+  - (* SWith *) cbn [enter_scope lc_iter lc_end lc_pending]. rewrite ?app_length. cbn [length]. rewrite ?app_length.
+    match goal with |- context [seq_code _ body ?pos] => pose proof (seq_len_indep body H pos i e e' (ClFrame :: p)) as HL end.
+    unfold compile_stmts in HL. lia.
+  - (* SFilterBlock *) cbn [enter_scope lc_iter lc_end lc_pending]. rewrite ?app_length. cbn [length]. rewrite ?app_length.
+    pose proof (seq_len_indep body H (base + 1) i e e' (ClCapture :: p)) as HL. unfold compile_stmts in HL. lia.
+  - (* SAutoEscape *) cbn [enter_scope lc_iter lc_end lc_pending]. rewrite ?app_length. cbn [length]. rewrite ?app_length.
+    match goal with |- context [seq_code _ body ?pos] => pose proof (seq_len_indep body H pos i e e' (ClAutoEscape :: p)) as HL end.
+    unfold compile_stmts in HL. lia.
+  - (* SBreak *) cbn [lc_pending lc_end]. rewrite !app_length. reflexivity.
+Qed.
+
+(* the loop bookkeeping of the innermost frame *)
+Definition hdl (s : st) : option (option (Z * Z * bool)) :=
+  match s_env s with f :: _ => Some (f_loop f) | [] => None end.
+
+Lemma hdl_env a b : s_env a = s_env b -> hdl a = hdl b.
+Proof. unfold hdl. intros ->. reflexivity. Qed.
+
+Lemma store_hdl s x v : hdl (store s x v) = hdl s.
+Proof. unfold hdl, store. destruct (s_env s) as [|f r] eqn:E; cbn [s_env f_loop]; rewrite ?E; reflexivity. Qed.
+
+Section Hdl.
+Variable c : cfg.
+
+Lemma if_arms_hdl fuel esc els inl :
+  (forall l, forallb (l2_stmt inl) l = true -> forall s sg s', exec_list c fuel esc s l = Ok (sg, s') -> hdl s' = hdl s) ->
+  match els with Some b => forallb (l2_stmt inl) b | None => true end = true ->
+  forall arms, forallb (fun p => l2_expr (fst p) && forallb (l2_stmt inl) (snd p)) arms = true ->
+  forall s sg s', if_arms (c_mode c) (eval c fuel esc) (exec_list c fuel esc) els s arms = Ok (sg, s') -> hdl s' = hdl s.
+Proof.
+  intros IHl Hels. induction arms as [|[cnd body] r IH]; intros Hw s sg s' He; cbn [if_arms] in He.
+  - destruct els as [b|]; [eapply IHl; eauto|inversion He; reflexivity].
+  - cbn [forallb fst snd] in Hw. apply andb_prop in Hw as [Hw Hr]. apply andb_prop in Hw as [_ Hb].
+    bstep He p1 E1. destruct p1 as [v s1]. bstep He t Et.
+    rewrite <- (hdl_env s1 s (eval_env_proof _ _ _ _ _ _ _ E1)).
+    destruct t; [eapply IHl; eauto|eapply IH; eauto].
+Qed.
+
+Lemma frag_hdl : forall fuel,
+  (forall inl t, l2_stmt inl t = true -> forall esc s sg s', exec c fuel esc s t = Ok (sg, s') -> hdl s' = hdl s) /\
+  (forall inl l, forallb (l2_stmt inl) l = true -> forall esc s sg s', exec_list c fuel esc s l = Ok (sg, s') -> hdl s' = hdl s).
+Proof.
+  induction fuel as [|fuel [IHs IHl]].
+  { split; intros; discriminate. }
+  split.
+  - intros inl t Hw esc s sg s' He.
+    destruct t; cbn [l2_stmt] in Hw; try discriminate.
+    + cbn [exec] in He. inversion He; reflexivity.
+    + cbn [exec] in He. bstep He p1 E1. destruct p1 as [v s1].
+      destruct (u_strictish (c_mode c) && is_strict_undef v); try discriminate. inversion He; subst.
+      apply hdl_env. cbn [emit s_env]. eapply eval_env_proof; eauto.
+    + cbn [exec] in He. apply andb_prop in Hw as [Ha Hels].
+      eapply (if_arms_hdl fuel esc els inl); eauto.
+    + destruct filter; try discriminate.
+      apply andb_prop in Hw as [Hw Hels]. apply andb_prop in Hw as [Hi Hbody].
+      pose proof He as He0. cbn [exec] in He.
+      bstep He p1 E1. destruct p1 as [iv s1]. bstep He items E2. cbn [bind] in He.
+      bstep He s5 E4.
+      assert (H6 : s_env (pop_frame s5) = s_env s).
+      { apply (for_scoped_proof c (S fuel) esc s t iter None body recursive SigNormal).
+        cbn [exec]. rewrite E1. cbn [bind]. rewrite E2. cbn [bind]. rewrite E4. cbn [bind]. destruct items; reflexivity. }
+      destruct items as [|it0 items]; [destruct els as [eb|]|].
+      * rewrite <- (hdl_env _ _ H6). eapply IHl; eauto.
+      * inversion He; subst. apply hdl_env, H6.
+      * inversion He; subst. apply hdl_env, H6.
+    + cbn [exec] in He. bstep He p1 E1. destruct p1 as [v s1]. inversion He; subst.
+      rewrite store_hdl. apply hdl_env. eapply eval_env_proof; eauto.
+    + cbn [exec] in He.
+      bstep He p1 E1. destruct p1 as [[sg1 txt] s1]. bstep E1 p2 E2. destruct p2 as [sg2 s2]. inversion E1; subst. clear E1.
+      assert (H2 : hdl (with_out s2 (s_out s)) = hdl s).
+      { transitivity (hdl s2); [apply hdl_env; reflexivity|].
+        transitivity (hdl (with_out s [])); [eapply IHl; eauto|apply hdl_env; reflexivity]. }
+      destruct sg1.
+      * bstep He fv Ef. inversion He; subst. rewrite store_hdl. exact H2.
+      * inversion He; subst. exact H2.
+      * inversion He; subst. exact H2.
+    + apply hdl_env. eapply with_scoped_proof; eauto.
+    + cbn [exec] in He.
+      bstep He p1 E1. destruct p1 as [[sg1 txt] s1]. bstep E1 p2 E2. destruct p2 as [sg2 s2]. inversion E1; subst. clear E1.
+      assert (H2 : hdl (with_out s2 (s_out s)) = hdl s).
+      { transitivity (hdl s2); [apply hdl_env; reflexivity|].
+        transitivity (hdl (with_out s [])); [eapply IHl; eauto|apply hdl_env; reflexivity]. }
+      destruct sg1.
+      * bstep He fv Ef. inversion He; subst. exact H2.
+      * inversion He; subst. exact H2.
+      * inversion He; subst. exact H2.
+    + cbn [exec] in He. apply andb_prop in Hw as [_ Hb].
+      bstep He p1 E1. destruct p1 as [x s1]. bstep He esc' Ee.
+      rewrite <- (hdl_env s1 s (eval_env_proof _ _ _ _ _ _ _ E1)). eapply IHl; eauto.
+    + cbn [exec] in He. inversion He; reflexivity.
+    + cbn [exec] in He. inversion He; reflexivity.
+  - intros inl l Hw esc s sg s' He.
+    destruct l as [|t r]; cbn [exec_list] in He.
+    + inversion He; reflexivity.
+    + cbn [forallb] in Hw. apply andb_prop in Hw as [Ht Hr].
+      bstep He p1 E1. destruct p1 as [sg1 s1].
+      transitivity (hdl s1); [|eapply IHs; eauto].
+      destruct sg1; [eapply IHl; eauto|inversion He; reflexivity|inversion He; reflexivity].
+Qed.
+
+End Hdl.
+
+Section SimStmtBase.
 Variable c : cfg.
 Variable C : list instr.
 Notation star := (L2.Simulation.star c C).
@@ -521,111 +719,9 @@ Ltac step_by H tac :=
   eapply star_step;
   [ rewrite (step_at c C _ _ _ _ _ _ _ _ _ (code_at_head _ _ _ _ H)); cbn [exec_instr v_stk v_st v_esc v_escs v_caps]; tac; reflexivity
   | vmsimp ].
-Ltac finish := eapply star_eq; [constructor|]; f_equal; rewrite ?app_length; cbn [length]; lia.
-
-Definition sim_list (fuel : nat) (l : list stmt) : Prop :=
-  forall esc s sg s', exec_list c fuel esc s l = Ok (sg, s') ->
-  forall base lc stk escs caps its calls, code_at C base (compile_stmts l base lc) ->
-  sg = SigNormal /\
-  star (mkVm base stk s esc escs caps its calls)
-       (mkVm (base + length (compile_stmts l base lc)) stk s' esc escs caps its calls).
-
-Definition sim_stmt (fuel : nat) (t : stmt) : Prop :=
-  forall esc s sg s', exec c fuel esc s t = Ok (sg, s') ->
-  forall base lc stk escs caps its calls, code_at C base (compile_stmt t base lc) ->
-  sg = SigNormal /\
-  star (mkVm base stk s esc escs caps its calls)
-       (mkVm (base + length (compile_stmt t base lc)) stk s' esc escs caps its calls).
 
 Lemma exec_list_nil fuel esc s r : exec_list c fuel esc s [] = Ok r -> r = (SigNormal, s).
 Proof. destruct fuel; cbn; intros H; inversion H; reflexivity. Qed.
-
-Lemma if_sim fuel esc els lc :
-  (forall l, forallb l2_stmt l = true -> sim_list fuel l) ->
-  match els with Some b => forallb l2_stmt b | None => true end = true ->
-  forall arms, forallb (fun p => l2_expr (fst p) && forallb l2_stmt (snd p)) arms = true ->
-  forall s sg s', if_arms (c_mode c) (eval c fuel esc) (exec_list c fuel esc) els s arms = Ok (sg, s') ->
-  forall base stk escs caps its calls,
-    code_at C base (if_code (fun b pc => compile_stmts b pc lc) els arms base) ->
-    sg = SigNormal /\
-    star (mkVm base stk s esc escs caps its calls)
-         (mkVm (base + length (if_code (fun b pc => compile_stmts b pc lc) els arms base)) stk s' esc escs caps its calls).
-Proof.
-  intros IHl Hels. induction arms as [|[cnd body] r IHr]; intros Hw s sg s' He base stk escs caps its calls Hc.
-  - cbn [if_arms if_code] in *. destruct els as [b|].
-    + apply (IHl b Hels _ _ _ _ He _ _ _ _ _ _ _ Hc).
-    + inversion He; subst. split; [reflexivity|]. cbn [length]. rewrite Nat.add_0_r. constructor.
-  - cbn [forallb fst snd] in Hw. apply andb_prop in Hw as [Hw Hr]. apply andb_prop in Hw as [Hcnd Hbody].
-    cbn [if_arms] in He. fold (if_arms (c_mode c) (eval c fuel esc) (exec_list c fuel esc) els) in He.
-    bstep He p1 E1. destruct p1 as [v s1]. bstep He t Et.
-    cbn [if_code] in Hc |- *. fold (if_code (fun b pc => compile_stmts b pc lc) els) in Hc |- *.
-    set (cc := compile_expr cnd base) in *.
-    set (ct := compile_stmts body (base + length cc + 1) lc) in *.
-    assert (Hcond : forall X, code_at C base (cc ++ X) ->
-              star (mkVm base stk s esc escs caps its calls) (mkVm (base + length cc) (v :: stk) s1 esc escs caps its calls)).
-    { intros X HX. eapply (sim_all c C fuel esc cnd Hcnd _ _ _ E1). eapply code_at_app_l; eauto. }
-    destruct r as [|a2 r'].
-    + destruct (nonempty_body els) as [eb|] eqn:Ene.
-      * (* else branch *)
-        pose proof (Hcond _ Hc) as S1. apply code_at_app_r in Hc.
-        pose proof (code_at_head _ _ _ _ Hc) as Hj. apply code_at_tail in Hc.
-        replace (S (base + length cc)) with (base + length cc + 1) in * by lia.
-        destruct t.
-        -- destruct (IHl body Hbody _ _ _ _ He (base + length cc + 1) lc stk escs caps its calls ltac:(eapply code_at_app_l; eauto)) as [-> S2].
-           split; [reflexivity|].
-           eapply star_trans; [exact S1|].
-           eapply star_step. { rewrite (step_at c C _ _ _ _ _ _ _ _ _ Hj). cbn [exec_instr v_stk v_st]. rewrite Et. reflexivity. }
-           vmsimp. replace (S (base + length cc)) with (base + length cc + 1) in * by lia.
-           eapply star_trans; [exact S2|]. fold ct.
-           apply code_at_app_r in Hc. step_by Hc idtac. finish.
-        -- apply code_at_app_r in Hc. apply code_at_tail in Hc. fold ct in Hc.
-           eapply code_at_pc in Hc; [|instantiate (1 := base + length cc + 1 + length ct + 1); lia].
-           destruct (IHr Hr _ _ _ He _ stk escs caps its calls Hc) as [-> S2].
-           split; [reflexivity|].
-           eapply star_trans; [exact S1|].
-           eapply star_step. { rewrite (step_at c C _ _ _ _ _ _ _ _ _ Hj). cbn [exec_instr v_stk v_st]. rewrite Et. reflexivity. }
-           vmsimp. eapply star_eq; [exact S2|]. f_equal. rewrite !app_length. cbn [length]. lia.
-      * (* no else *)
-        pose proof (Hcond _ Hc) as S1. apply code_at_app_r in Hc.
-        pose proof (code_at_head _ _ _ _ Hc) as Hj. apply code_at_tail in Hc.
-        replace (S (base + length cc)) with (base + length cc + 1) in * by lia.
-        destruct t.
-        -- destruct (IHl body Hbody _ _ _ _ He (base + length cc + 1) lc stk escs caps its calls Hc) as [-> S2].
-           split; [reflexivity|].
-           eapply star_trans; [exact S1|].
-           eapply star_step. { rewrite (step_at c C _ _ _ _ _ _ _ _ _ Hj). cbn [exec_instr v_stk v_st]. rewrite Et. reflexivity. }
-           vmsimp. replace (S (base + length cc)) with (base + length cc + 1) in * by lia.
-           eapply star_eq; [exact S2|]. f_equal. fold ct. rewrite !app_length. cbn [length]. lia.
-        -- cbn [if_arms] in He.
-           assert (Hr0 : (sg, s') = (SigNormal, s1)).
-           { destruct els as [[|x b]|]; try discriminate Ene.
-             - eapply exec_list_nil; eauto.
-             - inversion He; reflexivity. }
-           inversion Hr0; subst. split; [reflexivity|].
-           eapply star_trans; [exact S1|].
-           eapply star_step. { rewrite (step_at c C _ _ _ _ _ _ _ _ _ Hj). cbn [exec_instr v_stk v_st]. rewrite Et. reflexivity. }
-           vmsimp. fold ct. finish.
-    + (* elif *)
-      pose proof (Hcond _ Hc) as S1. apply code_at_app_r in Hc.
-      pose proof (code_at_head _ _ _ _ Hc) as Hj. apply code_at_tail in Hc.
-      replace (S (base + length cc)) with (base + length cc + 1) in * by lia.
-      destruct t.
-      -- destruct (IHl body Hbody _ _ _ _ He (base + length cc + 1) lc stk escs caps its calls ltac:(eapply code_at_app_l; eauto)) as [-> S2].
-         split; [reflexivity|].
-         eapply star_trans; [exact S1|].
-         eapply star_step. { rewrite (step_at c C _ _ _ _ _ _ _ _ _ Hj). cbn [exec_instr v_stk v_st]. rewrite Et. reflexivity. }
-         vmsimp. replace (S (base + length cc)) with (base + length cc + 1) in * by lia.
-         eapply star_trans; [exact S2|]. fold ct.
-         apply code_at_app_r in Hc. step_by Hc idtac. finish.
-      -- apply code_at_app_r in Hc. apply code_at_tail in Hc. fold ct in Hc.
-         eapply code_at_pc in Hc; [|instantiate (1 := base + length cc + 1 + length ct + 1); lia].
-         destruct (IHr Hr _ _ _ He _ stk escs caps its calls Hc) as [-> S2].
-         split; [reflexivity|].
-         eapply star_trans; [exact S1|].
-         eapply star_step. { rewrite (step_at c C _ _ _ _ _ _ _ _ _ Hj). cbn [exec_instr v_stk v_st]. rewrite Et. reflexivity. }
-         vmsimp. eapply star_eq; [exact S2|]. f_equal. rewrite !app_length. cbn [length]. lia.
-Qed.
-
 
 Lemma binds_sim fuel esc binds :
   forallb (fun p => l2_expr (snd p)) binds = true ->
@@ -654,103 +750,592 @@ Proof.
   repeat match goal with |- context [if ?x then _ else _] => destruct x end; destruct md; cbn; intros H; inversion H; try reflexivity.
 Qed.
 
-Lemma stmts_sim : forall fuel,
-  (forall t, l2_stmt t = true -> sim_stmt fuel t) /\ (forall l, forallb l2_stmt l = true -> sim_list fuel l).
+End SimStmtBase.
+
+Section SimStmt.
+Variable c : cfg.
+Variable C : list instr.
+Notation star := (L2.Simulation.star c C).
+
+Ltac vmsimp := cbn [bind next goto v_pc v_stk v_st v_esc v_escs v_caps v_iters v_calls].
+Ltac step_by H tac :=
+  eapply star_step;
+  [ rewrite (step_at c C _ _ _ _ _ _ _ _ _ (code_at_head _ _ _ _ H)); cbn [exec_instr v_stk v_st v_esc v_escs v_caps v_iters]; tac; reflexivity
+  | vmsimp ].
+Ltac lens := cbn [length app]; rewrite ?app_length; cbn [length app]; rewrite ?app_length; cbn [length app]; rewrite ?app_length; cbn [length]; lia.
+
+Lemma post_endpc sg lc e1 e2 stk s' esc escs caps its calls σ' :
+  e1 = e2 \/ sg <> SigNormal ->
+  post sg lc e1 stk s' esc escs caps its calls σ' -> post sg lc e2 stk s' esc escs caps its calls σ'.
+Proof. intros [->|H]; [auto|]. destruct sg; [congruence|auto|auto]. Qed.
+
+(* trailing steps that only move the pc extend a normal completion; a signal has already left *)
+Lemma post_then sg lc e1 e2 stk s' esc escs caps its calls σ' :
+  post sg lc e1 stk s' esc escs caps its calls σ' ->
+  star (mkVm e1 stk s' esc escs caps its calls) (mkVm e2 stk s' esc escs caps its calls) ->
+  exists σ'', star σ' σ'' /\ post sg lc e2 stk s' esc escs caps its calls σ''.
+Proof.
+  intros Hp Hs. destruct sg; cbn [post] in *.
+  - subst. eexists; split; [exact Hs|reflexivity].
+  - exists σ'. split; [constructor|exact Hp].
+  - exists σ'. split; [constructor|exact Hp].
+Qed.
+
+Lemma cleanup_sim p : forall pc stk s esc escs caps its calls,
+  fits p (length (s_env s)) (length escs) (length caps) ->
+  code_at C pc (cleanup_code p) ->
+  star (mkVm pc stk s esc escs caps its calls)
+       (unwound (pc + length (cleanup_code p)) p stk s esc escs caps its calls).
+Proof.
+  induction p as [|k p IH]; intros pc stk s esc escs caps its calls Hf Hc.
+  - cbn. rewrite Nat.add_0_r. constructor.
+  - cbn [cleanup_code flat_map] in Hc |- *. fold (cleanup_code p) in Hc |- *.
+    destruct k; cbn [fits] in Hf; destruct Hf as [H1 Hf]; cbn [unwound app] in Hc |- *.
+    + destruct (s_env s) as [|f0 r0] eqn:Ee; [cbn in H1; lia|].
+      step_by Hc ltac:(rewrite Ee). apply code_at_tail in Hc.
+      eapply star_eq. { eapply IH; [|exact Hc]. unfold pop_frame. cbn [s_env]. rewrite Ee. cbn [tl length] in *. replace (length r0) with (S (length r0) - 1) by lia. exact Hf. }
+      f_equal. cbn [length]. lia.
+    + destruct caps as [|o cs]; [cbn in H1; lia|].
+      step_by Hc idtac. apply code_at_tail in Hc. step_by Hc idtac. apply code_at_tail in Hc.
+      eapply star_eq. { eapply IH; [|exact Hc]. cbn [with_out s_env length] in *. replace (length cs) with (S (length cs) - 1) by lia. exact Hf. }
+      f_equal. cbn [length]. lia.
+    + destruct escs as [|e es]; [cbn in H1; lia|].
+      step_by Hc idtac. apply code_at_tail in Hc.
+      eapply star_eq. { eapply IH; [|exact Hc]. cbn [length] in *. replace (length es) with (S (length es) - 1) by lia. exact Hf. }
+      f_equal. cbn [length]. lia.
+Qed.
+
+Definition sim_list (fuel : nat) (inl : bool) (l : list stmt) : Prop :=
+  forall esc s sg s', exec_list c fuel esc s l = Ok (sg, s') ->
+  forall base lc stk escs caps its calls, code_at C base (compile_stmts l base lc) ->
+  (inl = true -> lc <> None) -> lc_fits lc (length (s_env s)) (length escs) (length caps) ->
+  exists σ', star (mkVm base stk s esc escs caps its calls) σ' /\
+             post sg lc (base + length (compile_stmts l base lc)) stk s' esc escs caps its calls σ'.
+
+Definition sim_stmt (fuel : nat) (inl : bool) (t : stmt) : Prop :=
+  forall esc s sg s', exec c fuel esc s t = Ok (sg, s') ->
+  forall base lc stk escs caps its calls, code_at C base (compile_stmt t base lc) ->
+  (inl = true -> lc <> None) -> lc_fits lc (length (s_env s)) (length escs) (length caps) ->
+  exists σ', star (mkVm base stk s esc escs caps its calls) σ' /\
+             post sg lc (base + length (compile_stmt t base lc)) stk s' esc escs caps its calls σ'.
+
+Lemma if_sim2 fuel esc els lc inl :
+  (forall l, forallb (l2_stmt inl) l = true -> sim_list fuel inl l) ->
+  match els with Some b => forallb (l2_stmt inl) b | None => true end = true ->
+  (inl = true -> lc <> None) ->
+  forall arms, forallb (fun p => l2_expr (fst p) && forallb (l2_stmt inl) (snd p)) arms = true ->
+  forall s sg s', if_arms (c_mode c) (eval c fuel esc) (exec_list c fuel esc) els s arms = Ok (sg, s') ->
+  forall base stk escs caps its calls,
+    code_at C base (if_code (fun b pc => compile_stmts b pc lc) els arms base) ->
+    lc_fits lc (length (s_env s)) (length escs) (length caps) ->
+    exists σ', star (mkVm base stk s esc escs caps its calls) σ' /\
+      post sg lc (base + length (if_code (fun b pc => compile_stmts b pc lc) els arms base)) stk s' esc escs caps its calls σ'.
+Proof.
+  intros IHl Hels Hin. induction arms as [|[cnd body] r IHr]; intros Hw s sg s' He base stk escs caps its calls Hc Hf.
+  - cbn [if_arms if_code] in *. destruct els as [b|].
+    + apply (IHl b Hels _ _ _ _ He _ _ _ _ _ _ _ Hc Hin Hf).
+    + inversion He; subst. eexists; split; [constructor|]. cbn [post length]. now rewrite Nat.add_0_r.
+  - cbn [forallb fst snd] in Hw. apply andb_prop in Hw as [Hw Hr]. apply andb_prop in Hw as [Hcnd Hbody].
+    cbn [if_arms] in He. fold (if_arms (c_mode c) (eval c fuel esc) (exec_list c fuel esc) els) in He.
+    bstep He p1 E1. destruct p1 as [v s1]. bstep He t Et.
+    cbn [if_code] in Hc |- *. fold (if_code (fun b pc => compile_stmts b pc lc) els) in Hc |- *.
+    set (cc := compile_expr cnd base) in *.
+    set (ct := compile_stmts body (base + length cc + 1) lc) in *.
+    assert (Henv1 : s_env s1 = s_env s) by (eapply eval_env_proof; eauto).
+    assert (Hf1 : lc_fits lc (length (s_env s1)) (length escs) (length caps)) by (rewrite Henv1; exact Hf).
+    assert (Hcond : forall X, code_at C base (cc ++ X) ->
+              star (mkVm base stk s esc escs caps its calls) (mkVm (base + length cc) (v :: stk) s1 esc escs caps its calls)).
+    { intros X HX. eapply (sim_all c C fuel esc cnd Hcnd _ _ _ E1). eapply code_at_app_l; eauto. }
+    (* the two shapes: with an else part (elif or non-empty else) / without *)
+    set (cf := if_code (fun b pc => compile_stmts b pc lc) els r (base + length cc + 1 + length ct + 1)) in *.
+    assert (Hshape : (match r, nonempty_body els with [], None => False | _, _ => True end) \/ (r = [] /\ nonempty_body els = None)).
+    { destruct r; [destruct (nonempty_body els); [left; exact I|right; auto]|left; exact I]. }
+    destruct Hshape as [Hsh|[Hr0 Hne]].
+    + assert (Hcode : code_at C base (cc ++ [IJumpIfFalse (base + length cc + 1 + length ct + 1)] ++ ct
+                        ++ [IJump (base + length cc + 1 + length ct + 1 + length cf)] ++ cf) /\
+                      length (match r, nonempty_body els with
+                              | [], None => cc ++ [IJumpIfFalse (base + length cc + 1 + length ct)] ++ ct
+                              | _, _ => cc ++ [IJumpIfFalse (base + length cc + 1 + length ct + 1)] ++ ct
+                                          ++ [IJump (base + length cc + 1 + length ct + 1 + length cf)] ++ cf end)
+                      = length cc + 1 + length ct + 1 + length cf).
+      { destruct r; [destruct (nonempty_body els); [|contradiction]|]; (split; [exact Hc|lens]). }
+      destruct Hcode as [Hc' Hlen]. rewrite Hlen.
+      clear Hc Hlen. rename Hc' into Hc.
+      pose proof (Hcond _ Hc) as S1. apply code_at_app_r in Hc.
+      pose proof (code_at_head _ _ _ _ Hc) as Hj. apply code_at_tail in Hc.
+      replace (S (base + length cc)) with (base + length cc + 1) in * by lia.
+      destruct t.
+      * destruct (IHl body Hbody _ _ _ _ He (base + length cc + 1) lc stk escs caps its calls ltac:(eapply code_at_app_l; eauto) Hin Hf1) as [σ1 [S2 P2]].
+        fold ct in P2. apply code_at_app_r in Hc.
+        destruct (post_then sg lc _ (base + (length cc + 1 + length ct + 1 + length cf)) _ _ _ _ _ _ _ _ P2) as [σ2 [S3 P3]].
+        { step_by Hc idtac. eapply star_eq; [constructor|]. f_equal. lia. }
+        exists σ2. split; [|exact P3].
+        eapply star_trans; [exact S1|].
+        eapply star_step. { rewrite (step_at c C _ _ _ _ _ _ _ _ _ Hj). cbn [exec_instr v_stk v_st]. rewrite Et. reflexivity. }
+        vmsimp. replace (S (base + length cc)) with (base + length cc + 1) in * by lia.
+        eapply star_trans; [exact S2|exact S3].
+      * apply code_at_app_r in Hc. apply code_at_tail in Hc.
+        eapply code_at_pc in Hc; [|instantiate (1 := base + length cc + 1 + length ct + 1); lia].
+        destruct (IHr Hr _ _ _ He _ stk escs caps its calls Hc Hf1) as [σ1 [S2 P2]].
+        exists σ1. split.
+        -- eapply star_trans; [exact S1|].
+           eapply star_step. { rewrite (step_at c C _ _ _ _ _ _ _ _ _ Hj). cbn [exec_instr v_stk v_st]. rewrite Et. reflexivity. }
+           vmsimp. exact S2.
+        -- eapply post_endpc; [|exact P2]. left. fold cf. lia.
+    + subst r. rewrite Hne in Hc |- *.
+      pose proof (Hcond _ Hc) as S1. apply code_at_app_r in Hc.
+      pose proof (code_at_head _ _ _ _ Hc) as Hj. apply code_at_tail in Hc.
+      replace (S (base + length cc)) with (base + length cc + 1) in * by lia.
+      destruct t.
+      * destruct (IHl body Hbody _ _ _ _ He (base + length cc + 1) lc stk escs caps its calls Hc Hin Hf1) as [σ1 [S2 P2]].
+        exists σ1. split.
+        -- eapply star_trans; [exact S1|].
+           eapply star_step. { rewrite (step_at c C _ _ _ _ _ _ _ _ _ Hj). cbn [exec_instr v_stk v_st]. rewrite Et. reflexivity. }
+           vmsimp. replace (S (base + length cc)) with (base + length cc + 1) in * by lia. exact S2.
+        -- fold ct in P2. eapply post_endpc; [|exact P2]. left. lens.
+      * cbn [if_arms] in He.
+        assert (Hr0 : (sg, s') = (SigNormal, s1)).
+        { destruct els as [[|x b]|]; try discriminate Hne.
+          - eapply exec_list_nil; eauto.
+          - inversion He; reflexivity. }
+        inversion Hr0; subst. eexists. split; [|reflexivity].
+        eapply star_trans; [exact S1|].
+        eapply star_step. { rewrite (step_at c C _ _ _ _ _ _ _ _ _ Hj). cbn [exec_instr v_stk v_st]. rewrite Et. reflexivity. }
+        vmsimp. fold ct. eapply star_eq; [constructor|]. f_equal. lens.
+Qed.
+
+
+Lemma post_enter k sg lc e stk s2 esc escs caps its calls σ' X :
+  post sg (enter_scope k lc) e stk s2 esc escs caps its calls σ' -> sg <> SigNormal ->
+  (forall l pc, unwound pc (k :: lc_pending l) stk s2 esc escs caps its calls = X l pc) ->
+  exists l, lc = Some l /\ σ' = X l (match sg with SigBreak => lc_end l | _ => lc_iter l end).
+Proof.
+  intros Hp Hn HX. destruct sg; [congruence| |]; cbn [post] in Hp; destruct Hp as [l' [Hl ->]];
+    destruct lc as [l|]; cbn [enter_scope] in Hl; try discriminate; inversion Hl; subst l'; cbn [lc_end lc_iter lc_pending];
+    exists l; (split; [reflexivity|apply HX]).
+Qed.
+
+Lemma fits_enter k lc nenv nescs ncaps :
+  lc_fits lc nenv nescs ncaps ->
+  lc_fits (enter_scope k lc)
+    (match k with ClFrame => S nenv | _ => nenv end)
+    (match k with ClAutoEscape => S nescs | _ => nescs end)
+    (match k with ClCapture => S ncaps | _ => ncaps end).
+Proof.
+  destruct lc as [l|]; cbn [lc_fits enter_scope lc_pending]; [|auto].
+  intros H. destruct k; cbn [fits]; (split; [lia|]); rewrite Nat.sub_succ, Nat.sub_0_r; exact H.
+Qed.
+
+Lemma enter_some k lc : lc <> None -> enter_scope k lc <> None.
+Proof. destruct lc; cbn; congruence. Qed.
+
+
+Lemma unwound_jump p : forall pc t stk s esc escs caps its calls, nth_error C pc = Some (IJump t) ->
+  step c C (unwound pc p stk s esc escs caps its calls) = Ok (unwound t p stk s esc escs caps its calls).
+Proof.
+  induction p as [|k p IH]; intros pc t stk s esc escs caps its calls H; cbn [unwound].
+  - rewrite (step_at c C _ _ _ _ _ _ _ _ _ H). reflexivity.
+  - destruct k; [apply IH; exact H| |].
+    + destruct caps; [rewrite (step_at c C _ _ _ _ _ _ _ _ _ H); reflexivity|apply IH; exact H].
+    + destruct escs; [rewrite (step_at c C _ _ _ _ _ _ _ _ _ H); reflexivity|apply IH; exact H].
+Qed.
+
+Lemma assign_sim tgt s item s3 pc stk esc escs caps its calls :
+  bind_target tgt s item = Ok s3 -> code_at C pc (assign_code tgt) ->
+  star (mkVm pc (item :: stk) s esc escs caps its calls)
+       (mkVm (pc + length (assign_code tgt)) stk s3 esc escs caps its calls).
+Proof.
+  intros Hb Hc. destruct tgt as [x|x y]; cbn [assign_code bind_target length] in *.
+  - inversion Hb; subst. step_by Hc idtac. eapply star_eq; [constructor|]. f_equal. lia.
+  - destruct item as [| | | | | |l| | |]; try discriminate. destruct l as [|a [|b [|? ?]]]; try discriminate.
+    inversion Hb; subst.
+    step_by Hc idtac. apply code_at_tail in Hc. cbn [app]. step_by Hc idtac. apply code_at_tail in Hc.
+    step_by Hc idtac. eapply star_eq; [constructor|]. f_equal. lia.
+Qed.
+
+(* Interp's state [s] and the VM's state [sv] at the Iterate instruction before iteration [i] *)
+Definition head_rel (i n : Z) (s sv : st) : Prop :=
+  s_clos sv = s_clos s /\ s_out sv = s_out s /\ s_asks sv = s_asks s /\
+  exists f fv e, s_env s = f :: e /\ s_env sv = fv :: e /\ f_closure fv = f_closure f /\
+                 f_closure_ctx fv = f_closure_ctx f /\ f_loop fv = Some ((i - 1)%Z, n, true).
+
+(* ... and when the loop is left *)
+Definition tail_rel (n : Z) (s5 sv5 : st) : Prop :=
+  s_clos sv5 = s_clos s5 /\ s_out sv5 = s_out s5 /\ s_asks sv5 = s_asks s5 /\ tl (s_env sv5) = tl (s_env s5) /\
+  exists fv e k, s_env sv5 = fv :: e /\ f_loop fv = Some (k, n, true).
+
+Lemma hdl_some s l : hdl s = Some (Some l) -> exists f e, s_env s = f :: e /\ f_loop f = Some l.
+Proof. unfold hdl. destruct (s_env s) as [|f e]; intros H; inversion H. eauto. Qed.
+
+Lemma bind_target_hdl tgt s item s3 : bind_target tgt s item = Ok s3 -> hdl s3 = hdl s.
+Proof.
+  destruct tgt as [x|x y]; cbn [bind_target]; intros H.
+  - inversion H. apply store_hdl.
+  - destruct item as [| | | | | |l| | |]; try discriminate. destruct l as [|a [|b [|? ?]]]; try discriminate.
+    inversion H. now rewrite !store_hdl.
+Qed.
+
+Lemma loop_sim fuel esc tgt body n it loop_end body_at its0 :
+  sim_list fuel true body -> forallb (l2_stmt true) body = true ->
+  code_at C it ([IIterate loop_end] ++ assign_code tgt ++ compile_stmts body body_at (Some (mkL it loop_end [])) ++ [IJump it]) ->
+  body_at = it + 1 + length (assign_code tgt) ->
+  loop_end = body_at + length (compile_stmts body body_at (Some (mkL it loop_end []))) + 1 ->
+  forall items s i s5, loop_items (exec_list c fuel esc) tgt body n s i items = Ok s5 ->
+  forall sv stk escs caps calls, head_rel i n s sv ->
+    exists sv5 rest, star (mkVm it stk sv esc escs caps (items :: its0) calls)
+                          (mkVm loop_end stk sv5 esc escs caps (rest :: its0) calls) /\ tail_rel n s5 sv5.
+Proof.
+  intros IHb Hbody Hc Hba Hle.
+  pose proof (code_at_head _ _ _ _ Hc) as Hit.
+  pose proof (code_at_tail _ _ _ _ Hc) as Hc1.
+  pose proof (code_at_app_l _ _ _ _ Hc1) as Hca.
+  pose proof (code_at_app_r _ _ _ _ Hc1) as Hc2.
+  replace (S it + length (assign_code tgt)) with body_at in Hc2 by lia.
+  pose proof (code_at_app_l _ _ _ _ Hc2) as Hcb.
+  pose proof (code_at_head _ _ _ _ (code_at_app_r _ _ _ _ Hc2)) as Hj.
+  induction items as [|item r IH]; intros s i s5 He sv stk escs caps calls Hh.
+  - cbn [loop_items] in He. inversion He; subst s5.
+    exists sv, []. split.
+    + apply star_one. rewrite (step_at c C _ _ _ _ _ _ _ _ _ Hit). reflexivity.
+    + destruct Hh as (A & B & D & f & fv & e & E1 & E2 & _ & _ & E5). repeat split; auto.
+      * rewrite E1, E2. reflexivity.
+      * eauto.
+  - destruct Hh as (A & B & D & f & fv & e & E1 & E2 & E3 & E4 & E5).
+    cbn [loop_items] in He. fold (loop_items (exec_list c fuel esc) tgt body n) in He. rewrite E1 in He.
+    set (s' := with_env s (mkFrame [] (Some (i, n, true)) (f_closure f) (f_closure_ctx f) false :: e)) in *.
+    bstep He s3 Eb. bstep He p4 Ex. destruct p4 as [sg s4].
+    (* Iterate *)
+    assert (S1 : star (mkVm it stk sv esc escs caps ((item :: r) :: its0) calls)
+                      (mkVm (S it) (item :: stk) s' esc escs caps (r :: its0) calls)).
+    { apply star_one. rewrite (step_at c C _ _ _ _ _ _ _ _ _ Hit). cbn [exec_instr v_iters v_st v_stk v_pc v_esc v_escs v_caps v_calls].
+      rewrite E2. cbn [advance_loop]. rewrite E5. unfold s', with_env. rewrite A, B, D, E3, E4.
+      replace (i - 1 + 1)%Z with i by lia. reflexivity. }
+    pose proof (assign_sim tgt s' item s3 (S it) stk esc escs caps (r :: its0) calls Eb Hca) as S2.
+    replace (S it + length (assign_code tgt)) with body_at in S2 by lia.
+    assert (Hl3 : hdl s3 = Some (Some (i, n, true))).
+    { rewrite (bind_target_hdl _ _ _ _ Eb). reflexivity. }
+    assert (Hl4 : hdl s4 = Some (Some (i, n, true))).
+    { rewrite <- Hl3. eapply (proj2 (frag_hdl c fuel)); eauto. }
+    destruct (IHb _ _ _ _ Ex body_at (Some (mkL it loop_end [])) stk escs caps (r :: its0) calls Hcb ltac:(discriminate) I) as [σ1 [S3 P3]].
+    destruct (hdl_some _ _ Hl4) as (f4 & e4 & Ee4 & Ef4).
+    assert (Hh4 : head_rel (i + 1) n s4 s4).
+    { repeat split; auto. exists f4, f4, e4. repeat split; auto. rewrite Ef4. f_equal. f_equal. f_equal. lia. }
+    destruct sg.
+    + (* normal end of the body: Jump back *)
+      cbn [post] in P3. subst σ1.
+      destruct (IH _ _ _ He s4 stk escs caps calls Hh4) as (sv5 & rest & S4 & T).
+      exists sv5, rest. split; [|exact T].
+      eapply star_trans; [exact S1|]. eapply star_trans; [exact S2|]. eapply star_trans; [exact S3|].
+      eapply star_step; [|exact S4]. rewrite (step_at c C _ _ _ _ _ _ _ _ _ Hj). reflexivity.
+    + (* break *)
+      inversion He; subst s5. cbn [post] in P3. destruct P3 as [l [Hl ->]]. inversion Hl; subst l. cbn [unwound lc_end lc_pending] in *.
+      exists s4, r. split.
+      * eapply star_trans; [exact S1|]. eapply star_trans; [exact S2|exact S3].
+      * repeat split; auto. exists f4, e4, i. split; assumption.
+    + (* continue *)
+      cbn [post] in P3. destruct P3 as [l [Hl ->]]. inversion Hl; subst l. cbn [unwound lc_iter lc_pending] in *.
+      destruct (IH _ _ _ He s4 stk escs caps calls Hh4) as (sv5 & rest & S4 & T).
+      exists sv5, rest. split; [|exact T].
+      eapply star_trans; [exact S1|]. eapply star_trans; [exact S2|]. eapply star_trans; [exact S3|exact S4].
+Qed.
+
+
+(* compile_for_loop without filter, with named positions *)
+Definition f_it (iter : expr) (base : nat) : nat := base + length (compile_expr iter base) + 1.
+Definition f_body_at (tgt : target) (iter : expr) (base : nat) : nat := f_it iter base + 1 + length (assign_code tgt).
+Definition f_end (tgt : target) (iter : expr) (body : list stmt) (base : nat) : nat :=
+  f_body_at tgt iter base + length (compile_stmts body (f_body_at tgt iter base) (Some (mkL (f_it iter base) 0 []))) + 1.
+Definition f_flags (rc : bool) : nat := LOOP_FLAG_WITH_LOOP_VAR + (if rc then LOOP_FLAG_RECURSIVE else 0).
+
+Lemma compile_for_eq tgt iter body els rc base lc :
+  compile_stmt (SFor tgt iter None body els rc) base lc =
+  compile_expr iter base ++ [IPushLoop (f_flags rc)] ++ [IIterate (f_end tgt iter body base)] ++ assign_code tgt
+    ++ compile_stmts body (f_body_at tgt iter base) (Some (mkL (f_it iter base) (f_end tgt iter body base) []))
+    ++ match els with
+       | None | Some [] => [IJump (f_it iter base); IPopLoopFrame]
+       | Some eb => [IJump (f_it iter base); IPushDidNotIterate; IPopLoopFrame;
+                     IJumpIfFalse (f_end tgt iter body base + 3 + length (compile_stmts eb (f_end tgt iter body base + 3) lc))]
+                    ++ compile_stmts eb (f_end tgt iter body base + 3) lc
+       end.
+Proof.
+  cbn [compile_stmt]. unfold f_end, f_body_at, f_it, f_flags, compile_stmts.
+  rewrite !app_length. cbn [length]. rewrite !Nat.add_assoc.
+  destruct els as [[|x b]|]; rewrite <- !app_assoc; reflexivity.
+Qed.
+
+Lemma lenZ_zero {A} (l : list A) : (lenZ l =? 0)%Z = match l with [] => true | _ => false end.
+Proof. destruct l; reflexivity. Qed.
+
+Lemma stmts_sim2 : forall fuel,
+  (forall inl t, l2_stmt inl t = true -> sim_stmt fuel inl t) /\
+  (forall inl l, forallb (l2_stmt inl) l = true -> sim_list fuel inl l).
 Proof.
   induction fuel as [|fuel [IHs IHl]].
-  { split; intros x _ esc s sg s' He; discriminate. }
+  { split; intros inl x _ esc s sg s' He; discriminate. }
   split.
-  - intros t Hw esc s sg s' He base lc stk escs caps its calls Hc.
-    destruct t; cbn [l2_stmt] in Hw; try discriminate; cbn [exec] in He; cbn [compile_stmt] in Hc |- *.
-    + (* SRaw *) inversion He; subst. split; [reflexivity|]. step_by Hc idtac. finish.
-    + (* SEmit *)
+  - intros inl t Hw esc s sg s' He base lc stk escs caps its calls Hc Hin Hf.
+    destruct t; cbn [l2_stmt] in Hw; try discriminate; cbn [exec] in He.
+    + (* SRaw *) cbn [compile_stmt] in Hc |- *. inversion He; subst. eexists; split; [|reflexivity]. step_by Hc idtac. eapply star_eq; [constructor|]. f_equal. lens.
+    + (* SEmit *) cbn [compile_stmt] in Hc |- *.
       bstep He p1 E1. destruct p1 as [v s1].
       destruct (u_strictish (c_mode c) && is_strict_undef v) eqn:Eu; try discriminate. inversion He; subst.
-      split; [reflexivity|].
+      eexists; split; [|reflexivity].
       eapply star_trans. { eapply (sim_all c C fuel esc e Hw _ _ _ E1). eapply code_at_app_l; eauto. }
-      apply code_at_app_r in Hc. step_by Hc ltac:(rewrite Eu). finish.
-    + (* SIf *)
+      apply code_at_app_r in Hc. step_by Hc ltac:(rewrite Eu). eapply star_eq; [constructor|]. f_equal. lens.
+    + (* SIf *) cbn [compile_stmt] in Hc |- *.
       apply andb_prop in Hw as [Harms Hels].
-      eapply (if_sim fuel esc els lc IHl Hels arms Harms _ _ _ He). exact Hc.
-    + (* SSet *)
-      bstep He p1 E1. destruct p1 as [v s1]. inversion He; subst. split; [reflexivity|].
+      eapply (if_sim2 fuel esc els lc inl (IHl inl) Hels Hin arms Harms _ _ _ He); eauto.
+    + (* SFor *)
+      destruct filter; try discriminate.
+      apply andb_prop in Hw as [Hw Hels]. apply andb_prop in Hw as [Hiter Hbody].
+      bstep He p1 E1. destruct p1 as [iv s1]. bstep He items E2. cbn [bind] in He. bstep He s5 E4.
+      change (loop_items_of (c_mode c) iv = Ok items) in E2.
+      assert (H6 : s_env (pop_frame s5) = s_env s).
+      { apply (for_scoped_proof c (S fuel) esc s t iter None body recursive SigNormal).
+        cbn [exec]. rewrite E1. cbn [bind]. unfold loop_items_of in E2. rewrite E2. cbn [bind]. rewrite E4. cbn [bind]. destruct items; reflexivity. }
+      rewrite compile_for_eq in Hc |- *.
+      set (it := f_it iter base) in *. set (body_at := f_body_at t iter base) in *. set (loop_end := f_end t iter body base) in *.
+      assert (Hit : it = base + length (compile_expr iter base) + 1) by reflexivity.
+      assert (Hba : body_at = it + 1 + length (assign_code t)) by reflexivity.
+      assert (Hlen : loop_end = body_at + length (compile_stmts body body_at (Some (mkL it loop_end []))) + 1).
+      { unfold loop_end at 1, f_end. fold body_at. fold it. f_equal. f_equal.
+        unfold compile_stmts. apply (seq_len_indep body).
+        clear. induction body; constructor; auto using compile_len_indep. }
+      pose proof (sim_all c C fuel esc iter Hiter _ _ _ E1 base stk escs caps its calls ltac:(eapply code_at_app_l; eauto)) as S1.
+      apply code_at_app_r in Hc.
+      pose proof (code_at_head _ _ _ _ Hc) as Hpl. apply code_at_tail in Hc.
+      replace (S (base + length (compile_expr iter base))) with it in Hc by lia.
+      set (n := lenZ items) in *.
+      set (sv0 := push_frame s1 (mkFrame [] (Some ((-1)%Z, n, true)) None None false)).
+      assert (S2 : star (mkVm (base + length (compile_expr iter base)) (iv :: stk) s1 esc escs caps its calls)
+                        (mkVm it stk sv0 esc escs caps (items :: its) calls)).
+      { apply star_one. rewrite (step_at c C _ _ _ _ _ _ _ _ _ Hpl). cbn [exec_instr v_stk v_st]. rewrite E2. cbn [bind].
+        unfold sv0, it, f_it, n. replace (Nat.odd (f_flags recursive)) with true by (destruct recursive; reflexivity).
+        replace (base + length (compile_expr iter base) + 1) with (S (base + length (compile_expr iter base))) by lia. reflexivity. }
+      set (TAIL := match els with
+                   | None | Some [] => [IJump it; IPopLoopFrame]
+                   | Some eb => [IJump it; IPushDidNotIterate; IPopLoopFrame;
+                                 IJumpIfFalse (loop_end + 3 + length (compile_stmts eb (loop_end + 3) lc))]
+                                ++ compile_stmts eb (loop_end + 3) lc
+                   end) in *.
+      assert (HT : exists T', TAIL = IJump it :: T') by (unfold TAIL; destruct els as [[|x b]|]; eexists; reflexivity).
+      destruct HT as [T' HT].
+      assert (Hc3 : code_at C it (([IIterate loop_end] ++ assign_code t ++ compile_stmts body body_at (Some (mkL it loop_end [])) ++ [IJump it]) ++ T')).
+      { rewrite HT in Hc. rewrite <- !app_assoc. exact Hc. }
+      pose proof (code_at_app_r _ _ _ _ Hc3) as Hct. apply code_at_app_l in Hc3.
+      replace (it + length ([IIterate loop_end] ++ assign_code t ++ compile_stmts body body_at (Some (mkL it loop_end [])) ++ [IJump it]))
+        with loop_end in Hct by (rewrite !app_length; cbn [length]; lia).
+      (* the iterations *)
+      assert (Hh0 : head_rel 0 n (push_frame s1 (mkFrame [] (Some (0%Z, n, true)) None None false)) sv0).
+      { unfold sv0, push_frame. repeat split; cbn [s_clos s_out s_asks s_env]; auto.
+        eexists _, _, _. repeat split; reflexivity. }
+      destruct (loop_sim fuel esc t body n it loop_end body_at its (IHl true body Hbody) Hbody Hc3
+                  ltac:(reflexivity) Hlen items _ _ _ E4 sv0 stk escs caps calls Hh0) as (sv5 & rest & S3 & T5).
+      destruct T5 as (A5 & B5 & D5 & E5 & fv5 & e5 & k5 & Ee5 & Ef5).
+      assert (Hpop : pop_frame sv5 = pop_frame s5).
+      { unfold pop_frame. rewrite A5, B5, D5, E5. reflexivity. }
+      assert (S0 : star (mkVm base stk s esc escs caps its calls) (mkVm loop_end stk sv5 esc escs caps (rest :: its) calls)).
+      { eapply star_trans; [exact S1|]. eapply star_trans; [exact S2|exact S3]. }
+      assert (Hf6 : lc_fits lc (length (s_env (pop_frame s5))) (length escs) (length caps)) by (rewrite H6; exact Hf).
+      subst TAIL.
+      destruct els as [[|x b]|].
+      * (* else present but empty *)
+        cbn [app] in HT; injection HT as HT'; subst T'.
+        assert (Hres : (sg, s') = (SigNormal, pop_frame s5)).
+        { destruct items; [eapply exec_list_nil; eauto|inversion He; reflexivity]. }
+        inversion Hres; subst sg s'. eexists; split; [|reflexivity].
+        eapply star_trans; [exact S0|].
+        step_by Hct ltac:(rewrite Ee5, Ef5). rewrite Hpop.
+        eapply star_eq; [constructor|]. f_equal.
+        rewrite ?app_length. cbn [length]. rewrite ?app_length. cbn [length]. rewrite ?app_length. cbn [length].
+        lia.
+      * (* else *)
+        cbn [app] in HT; injection HT as HT'; subst T'. cbn [app] in Hct.
+        set (ce := compile_stmts (x :: b) (loop_end + 3) lc) in *.
+        assert (Hce : length ce = length (compile_stmt x (loop_end + 3) lc)
+                        + length (compile_stmts b (loop_end + 3 + length (compile_stmt x (loop_end + 3) lc)) lc))
+          by (unfold ce, compile_stmts; cbn [seq_code]; rewrite app_length; reflexivity).
+        assert (Hcl : current_loop (s_env sv5) = Some (k5, n, true)) by (rewrite Ee5; cbn [current_loop]; rewrite Ef5; reflexivity).
+        pose proof (code_at_tail _ _ _ _ Hct) as Hct1. pose proof (code_at_tail _ _ _ _ Hct1) as Hct2.
+        pose proof (code_at_tail _ _ _ _ Hct2) as Hct3.
+        replace (S (S (S loop_end))) with (loop_end + 3) in Hct3 by lia.
+        assert (S4 : star (mkVm loop_end stk sv5 esc escs caps (rest :: its) calls)
+                          (mkVm (S (S loop_end)) (VBool (n =? 0)%Z :: stk) (pop_frame s5) esc escs caps its calls)).
+        { step_by Hct ltac:(rewrite Hcl). step_by Hct1 ltac:(rewrite Ee5, Ef5). rewrite Hpop. constructor. }
+        unfold n in S4. rewrite lenZ_zero in S4.
+        destruct items as [|it0 items'].
+        -- (* did not iterate: the else body runs *)
+           destruct (IHl inl (x :: b) Hels _ _ _ _ He (loop_end + 3) lc stk escs caps its calls Hct3 Hin Hf6) as [σ1 [S5 P5]].
+           exists σ1. split.
+           ++ eapply star_trans; [exact S0|]. eapply star_trans; [exact S4|].
+              eapply star_step; [|exact S5].
+              rewrite (step_at c C _ _ _ _ _ _ _ _ _ (code_at_head _ _ _ _ Hct2)). cbn [exec_instr v_stk v_st]. rewrite u_is_true_bool. cbn [bind]. unfold next. cbn [v_pc v_esc v_escs v_caps v_iters v_calls].
+              replace (S (S (S loop_end))) with (loop_end + 3) by lia. reflexivity.
+           ++ eapply post_endpc; [|exact P5]. left. fold ce.
+              rewrite ?app_length. cbn [length]. rewrite ?app_length. cbn [length]. rewrite ?app_length. cbn [length].
+              lia.
+        -- inversion He; subst sg s'. eexists; split; [|reflexivity].
+           eapply star_trans; [exact S0|]. eapply star_trans; [exact S4|].
+           eapply star_step.
+           { rewrite (step_at c C _ _ _ _ _ _ _ _ _ (code_at_head _ _ _ _ Hct2)). cbn [exec_instr v_stk v_st]. rewrite u_is_true_bool. reflexivity. }
+           cbn [bind goto v_pc v_st v_esc v_escs v_caps v_iters v_calls].
+           eapply star_eq; [constructor|]. f_equal.
+           rewrite ?app_length. cbn [length]. rewrite ?app_length. cbn [length]. rewrite ?app_length. cbn [length].
+           lia.
+      * (* no else *)
+        cbn [app] in HT; injection HT as HT'; subst T'.
+        assert (Hres : (sg, s') = (SigNormal, pop_frame s5)) by (destruct items; inversion He; reflexivity).
+        inversion Hres; subst sg s'. eexists; split; [|reflexivity].
+        eapply star_trans; [exact S0|].
+        step_by Hct ltac:(rewrite Ee5, Ef5). rewrite Hpop.
+        eapply star_eq; [constructor|]. f_equal.
+        rewrite ?app_length. cbn [length]. rewrite ?app_length. cbn [length]. rewrite ?app_length. cbn [length].
+        lia.
+    + (* SSet *) cbn [compile_stmt] in Hc |- *.
+      bstep He p1 E1. destruct p1 as [v s1]. inversion He; subst. eexists; split; [|reflexivity].
       eapply star_trans. { eapply (sim_all c C fuel esc e Hw _ _ _ E1). eapply code_at_app_l; eauto. }
-      apply code_at_app_r in Hc. step_by Hc idtac. finish.
-    + (* SSetBlock *)
+      apply code_at_app_r in Hc. step_by Hc idtac. eapply star_eq; [constructor|]. f_equal. lens.
+    + (* SSetBlock *) cbn [compile_stmt] in Hc |- *.
       bstep He p1 E1. destruct p1 as [[sg1 txt] s1]. bstep E1 p2 E2. destruct p2 as [sg2 s2]. inversion E1; subst. clear E1.
       pose proof (code_at_head _ _ _ _ Hc) as Hb. apply code_at_tail in Hc.
-      destruct (IHl body Hw _ _ _ _ E2 (base + 1) (enter_scope ClCapture lc) stk escs (s_out s :: caps) its calls
-                  ltac:(eapply code_at_app_l; eapply code_at_pc; [exact Hc|lia])) as [-> S2].
-      bstep He fv Ef. inversion He; subst. split; [reflexivity|].
-      eapply star_step. { rewrite (step_at c C _ _ _ _ _ _ _ _ _ Hb). reflexivity. }
-      vmsimp. replace (S base) with (base + 1) in * by lia.
-      eapply star_trans; [exact S2|].
-      apply code_at_app_r in Hc. step_by Hc idtac. apply code_at_tail in Hc.
-      destruct filter as [f|]; cbn [app] in Hc |- *.
-      * step_by Hc ltac:(cbn [pop_n]; rewrite Ef). apply code_at_tail in Hc. step_by Hc idtac.
-        eapply star_eq; [constructor|]. f_equal. unfold compile_stmts. cbn [length app]. rewrite ?app_length. cbn [length app]. rewrite ?app_length. cbn [length]. lia.
-      * inversion Ef; subst. step_by Hc idtac.
-        eapply star_eq; [constructor|]. f_equal. unfold compile_stmts. cbn [length app]. rewrite ?app_length. cbn [length app]. rewrite ?app_length. cbn [length]. lia.
-    + (* SWith *)
+      destruct (IHl inl body Hw _ _ _ _ E2 (base + 1) (enter_scope ClCapture lc) stk escs (s_out s :: caps) its calls
+                  ltac:(eapply code_at_app_l; eapply code_at_pc; [exact Hc|lia])
+                  ltac:(intros Hi; apply enter_some, Hin, Hi)
+                  ltac:(exact (fits_enter ClCapture lc _ _ _ Hf))) as [σ1 [S2 P2]].
+      assert (S1 : star (mkVm base stk s esc escs caps its calls) σ1).
+      { eapply star_step. { rewrite (step_at c C _ _ _ _ _ _ _ _ _ Hb). reflexivity. }
+        vmsimp. replace (S base) with (base + 1) in * by lia. exact S2. }
+      destruct sg1.
+      * cbn [post] in P2. subst σ1.
+        bstep He fv Ef. inversion He; subst. eexists; split; [|reflexivity].
+        eapply star_trans; [exact S1|].
+        replace (S base) with (base + 1) in * by lia.
+        apply code_at_app_r in Hc. step_by Hc idtac. apply code_at_tail in Hc.
+        destruct filter as [f|]; cbn [app] in Hc |- *.
+        -- step_by Hc ltac:(cbn [pop_n]; rewrite Ef). apply code_at_tail in Hc. step_by Hc idtac.
+           eapply star_eq; [constructor|]. f_equal. unfold compile_stmts. lens.
+        -- inversion Ef; subst. step_by Hc idtac.
+           eapply star_eq; [constructor|]. f_equal. unfold compile_stmts. lens.
+      * inversion He; subst. exists σ1. split; [exact S1|].
+        destruct (post_enter ClCapture SigBreak lc _ _ _ _ _ _ _ _ _ (fun l pc => unwound pc (lc_pending l) stk (with_out s2 (s_out s)) esc escs caps its calls) P2 ltac:(discriminate) ltac:(reflexivity)) as [l [-> ->]].
+        cbn [post]. eauto.
+      * inversion He; subst. exists σ1. split; [exact S1|].
+        destruct (post_enter ClCapture SigContinue lc _ _ _ _ _ _ _ _ _ (fun l pc => unwound pc (lc_pending l) stk (with_out s2 (s_out s)) esc escs caps its calls) P2 ltac:(discriminate) ltac:(reflexivity)) as [l [-> ->]].
+        cbn [post]. eauto.
+    + (* SWith *) cbn [compile_stmt] in Hc |- *.
       apply andb_prop in Hw as [Hb Hbody].
       bstep He s1 E1. bstep He p2 E2. destruct p2 as [sg2 s2]. inversion He; subst.
       pose proof (code_at_head _ _ _ _ Hc) as Hp. apply code_at_tail in Hc.
       replace (S base) with (base + 1) in * by lia.
-      pose proof (binds_sim fuel esc binds Hb _ _ E1 (base + 1) stk escs caps its calls ltac:(eapply code_at_app_l; eauto)) as S1.
+      pose proof (binds_sim c C fuel esc binds Hb _ _ E1 (base + 1) stk escs caps its calls ltac:(eapply code_at_app_l; eauto)) as S1.
       apply code_at_app_r in Hc.
-      destruct (IHl body Hbody _ _ _ _ E2 _ (enter_scope ClFrame lc) stk escs caps its calls ltac:(eapply code_at_app_l; eauto)) as [-> S2].
-      split; [reflexivity|].
-      eapply star_step. { rewrite (step_at c C _ _ _ _ _ _ _ _ _ Hp). reflexivity. }
-      vmsimp. replace (S base) with (base + 1) in * by lia.
-      eapply star_trans; [exact S1|]. eapply star_trans; [exact S2|].
-      apply code_at_app_r in Hc.
-      assert (Hne : s_env s2 <> []).
-      { apply with_binds_R in E1; [|apply eval_env_proof]. apply exec_list_R in E2.
-        destruct E1 as [_ A], E2 as [_ B]. cbn [push_frame s_env length] in A.
-        intros Z. rewrite Z in B. cbn in B. lia. }
-      destruct (s_env s2) as [|f0 r0] eqn:Eenv; [congruence|].
-      step_by Hc ltac:(rewrite Eenv).
-      eapply star_eq; [constructor|]. f_equal. unfold compile_stmts. cbn [length app]. rewrite ?app_length. cbn [length app]. rewrite ?app_length. cbn [length]. lia.
-    + (* SFilterBlock *)
+      pose proof E1 as R1. apply with_binds_R in R1; [|apply eval_env_proof]. destruct R1 as [_ L1]. cbn [push_frame s_env length] in L1.
+      destruct (IHl inl body Hbody _ _ _ _ E2 _ (enter_scope ClFrame lc) stk escs caps its calls ltac:(eapply code_at_app_l; eauto)
+                  ltac:(intros Hi; apply enter_some, Hin, Hi)
+                  ltac:(rewrite L1; exact (fits_enter ClFrame lc _ _ _ Hf))) as [σ1 [S2 P2]].
+      assert (S0 : star (mkVm base stk s esc escs caps its calls) σ1).
+      { eapply star_step. { rewrite (step_at c C _ _ _ _ _ _ _ _ _ Hp). reflexivity. }
+        vmsimp. replace (S base) with (base + 1) in * by lia.
+        eapply star_trans; [exact S1|exact S2]. }
+      destruct sg.
+      * cbn [post] in P2. subst σ1. eexists; split; [|reflexivity].
+        eapply star_trans; [exact S0|].
+        apply code_at_app_r in Hc.
+        assert (Hne : s_env s2 <> []).
+        { apply exec_list_R in E2. destruct E2 as [_ B]. intros Z. rewrite Z in B. cbn in B. lia. }
+        destruct (s_env s2) as [|f0 r0] eqn:Eenv; [congruence|].
+        step_by Hc ltac:(rewrite Eenv).
+        eapply star_eq; [constructor|]. f_equal. unfold compile_stmts. lens.
+      * exists σ1. split; [exact S0|].
+        destruct (post_enter ClFrame SigBreak lc _ _ _ _ _ _ _ _ _ (fun l pc => unwound pc (lc_pending l) stk (pop_frame s2) esc escs caps its calls) P2 ltac:(discriminate) ltac:(reflexivity)) as [l [-> ->]].
+        cbn [post]. eauto.
+      * exists σ1. split; [exact S0|].
+        destruct (post_enter ClFrame SigContinue lc _ _ _ _ _ _ _ _ _ (fun l pc => unwound pc (lc_pending l) stk (pop_frame s2) esc escs caps its calls) P2 ltac:(discriminate) ltac:(reflexivity)) as [l [-> ->]].
+        cbn [post]. eauto.
+    + (* SFilterBlock *) cbn [compile_stmt] in Hc |- *.
       bstep He p1 E1. destruct p1 as [[sg1 txt] s1]. bstep E1 p2 E2. destruct p2 as [sg2 s2]. inversion E1; subst. clear E1.
       pose proof (code_at_head _ _ _ _ Hc) as Hb. apply code_at_tail in Hc.
-      destruct (IHl body Hw _ _ _ _ E2 (base + 1) (enter_scope ClCapture lc) stk escs (s_out s :: caps) its calls
-                  ltac:(eapply code_at_app_l; eapply code_at_pc; [exact Hc|lia])) as [-> S2].
-      bstep He fv Ef. inversion He; subst. split; [reflexivity|].
-      eapply star_step. { rewrite (step_at c C _ _ _ _ _ _ _ _ _ Hb). reflexivity. }
-      vmsimp. replace (S base) with (base + 1) in * by lia.
-      eapply star_trans; [exact S2|].
-      apply code_at_app_r in Hc. step_by Hc idtac. apply code_at_tail in Hc.
-      step_by Hc ltac:(cbn [pop_n]; rewrite Ef). apply code_at_tail in Hc.
-      step_by Hc ltac:(rewrite (do_filter_str_defined _ _ _ _ _ _ Ef), andb_false_r).
-      eapply star_eq; [constructor|]. f_equal. unfold compile_stmts. cbn [length app]. rewrite ?app_length. cbn [length app]. rewrite ?app_length. cbn [length]. lia.
-    + (* SAutoEscape *)
+      destruct (IHl inl body Hw _ _ _ _ E2 (base + 1) (enter_scope ClCapture lc) stk escs (s_out s :: caps) its calls
+                  ltac:(eapply code_at_app_l; eapply code_at_pc; [exact Hc|lia])
+                  ltac:(intros Hi; apply enter_some, Hin, Hi)
+                  ltac:(exact (fits_enter ClCapture lc _ _ _ Hf))) as [σ1 [S2 P2]].
+      assert (S1 : star (mkVm base stk s esc escs caps its calls) σ1).
+      { eapply star_step. { rewrite (step_at c C _ _ _ _ _ _ _ _ _ Hb). reflexivity. }
+        vmsimp. replace (S base) with (base + 1) in * by lia. exact S2. }
+      destruct sg1.
+      * cbn [post] in P2. subst σ1.
+        bstep He fv Ef. inversion He; subst. eexists; split; [|reflexivity].
+        eapply star_trans; [exact S1|].
+        replace (S base) with (base + 1) in * by lia.
+        apply code_at_app_r in Hc. step_by Hc idtac. apply code_at_tail in Hc.
+        step_by Hc ltac:(cbn [pop_n]; rewrite Ef). apply code_at_tail in Hc.
+        step_by Hc ltac:(rewrite (do_filter_str_defined _ _ _ _ _ _ Ef), andb_false_r).
+        eapply star_eq; [constructor|]. f_equal. unfold compile_stmts. lens.
+      * inversion He; subst. exists σ1. split; [exact S1|].
+        destruct (post_enter ClCapture SigBreak lc _ _ _ _ _ _ _ _ _ (fun l pc => unwound pc (lc_pending l) stk (with_out s2 (s_out s)) esc escs caps its calls) P2 ltac:(discriminate) ltac:(reflexivity)) as [l [-> ->]].
+        cbn [post]. eauto.
+      * inversion He; subst. exists σ1. split; [exact S1|].
+        destruct (post_enter ClCapture SigContinue lc _ _ _ _ _ _ _ _ _ (fun l pc => unwound pc (lc_pending l) stk (with_out s2 (s_out s)) esc escs caps its calls) P2 ltac:(discriminate) ltac:(reflexivity)) as [l [-> ->]].
+        cbn [post]. eauto.
+    + (* SAutoEscape *) cbn [compile_stmt] in Hc |- *.
       apply andb_prop in Hw as [Hv Hbody].
       bstep He p1 E1. destruct p1 as [x s1]. bstep He esc' Ee.
       change (derive_auto_escape x = Ok esc') in Ee.
       pose proof (sim_all c C fuel esc v Hv _ _ _ E1 base stk escs caps its calls ltac:(eapply code_at_app_l; eauto)) as S1.
       apply code_at_app_r in Hc. pose proof (code_at_head _ _ _ _ Hc) as Hp. apply code_at_tail in Hc.
       replace (S (base + length (compile_expr v base))) with (base + length (compile_expr v base) + 1) in * by lia.
-      destruct (IHl body Hbody _ _ _ _ He _ (enter_scope ClAutoEscape lc) stk (esc :: escs) caps its calls ltac:(eapply code_at_app_l; eauto)) as [-> S2].
-      split; [reflexivity|].
-      eapply star_trans; [exact S1|].
-      eapply star_step. { rewrite (step_at c C _ _ _ _ _ _ _ _ _ Hp). cbn [exec_instr v_stk v_st]. rewrite Ee. reflexivity. }
-      vmsimp. replace (S (base + length (compile_expr v base))) with (base + length (compile_expr v base) + 1) in * by lia.
-      eapply star_trans; [exact S2|].
-      apply code_at_app_r in Hc. step_by Hc idtac.
-      eapply star_eq; [constructor|]. f_equal. unfold compile_stmts. cbn [length app]. rewrite ?app_length. cbn [length app]. rewrite ?app_length. cbn [length]. lia.
-  - intros l Hw esc s sg s' He base lc stk escs caps its calls Hc.
+      assert (Henv1 : s_env s1 = s_env s) by (eapply eval_env_proof; eauto).
+      destruct (IHl inl body Hbody _ _ _ _ He _ (enter_scope ClAutoEscape lc) stk (esc :: escs) caps its calls ltac:(eapply code_at_app_l; eauto)
+                  ltac:(intros Hi; apply enter_some, Hin, Hi)
+                  ltac:(rewrite Henv1; exact (fits_enter ClAutoEscape lc _ _ _ Hf))) as [σ1 [S2 P2]].
+      assert (S0 : star (mkVm base stk s esc escs caps its calls) σ1).
+      { eapply star_trans; [exact S1|].
+        eapply star_step. { rewrite (step_at c C _ _ _ _ _ _ _ _ _ Hp). cbn [exec_instr v_stk v_st]. rewrite Ee. reflexivity. }
+        vmsimp. replace (S (base + length (compile_expr v base))) with (base + length (compile_expr v base) + 1) in * by lia.
+        exact S2. }
+      destruct sg.
+      * cbn [post] in P2. subst σ1. eexists; split; [|reflexivity].
+        eapply star_trans; [exact S0|].
+        apply code_at_app_r in Hc. step_by Hc idtac.
+        eapply star_eq; [constructor|]. f_equal. unfold compile_stmts. lens.
+      * exists σ1. split; [exact S0|].
+        destruct (post_enter ClAutoEscape SigBreak lc _ _ _ _ _ _ _ _ _ (fun l pc => unwound pc (lc_pending l) stk s' esc escs caps its calls) P2 ltac:(discriminate) ltac:(reflexivity)) as [l [-> ->]].
+        cbn [post]. eauto.
+      * exists σ1. split; [exact S0|].
+        destruct (post_enter ClAutoEscape SigContinue lc _ _ _ _ _ _ _ _ _ (fun l pc => unwound pc (lc_pending l) stk s' esc escs caps its calls) P2 ltac:(discriminate) ltac:(reflexivity)) as [l [-> ->]].
+        cbn [post]. eauto.
+    + (* SBreak *) cbn [compile_stmt] in Hc |- *.
+      inversion He; subst. destruct lc as [l|]; [|exfalso; apply Hin; auto].
+      cbn [lc_fits] in Hf.
+      exists (unwound (lc_end l) (lc_pending l) stk s' esc escs caps its calls). split; [|cbn [post]; eauto].
+      pose proof (cleanup_sim (lc_pending l) base stk s' esc escs caps its calls Hf ltac:(eapply code_at_app_l; eauto)) as S1.
+      apply code_at_app_r in Hc.
+      eapply star_trans; [exact S1|]. apply star_one. apply unwound_jump. eapply code_at_head; eauto.
+    + (* SContinue *) cbn [compile_stmt] in Hc |- *.
+      inversion He; subst. destruct lc as [l|]; [|exfalso; apply Hin; auto].
+      cbn [lc_fits] in Hf.
+      exists (unwound (lc_iter l) (lc_pending l) stk s' esc escs caps its calls). split; [|cbn [post]; eauto].
+      pose proof (cleanup_sim (lc_pending l) base stk s' esc escs caps its calls Hf ltac:(eapply code_at_app_l; eauto)) as S1.
+      apply code_at_app_r in Hc.
+      eapply star_trans; [exact S1|]. apply star_one. apply unwound_jump. eapply code_at_head; eauto.
+  - intros inl l Hw esc s sg s' He base lc stk escs caps its calls Hc Hin Hf.
     destruct l as [|t r]; cbn [exec_list] in He.
-    + inversion He; subst. split; [reflexivity|]. cbn. rewrite Nat.add_0_r. constructor.
+    + inversion He; subst. eexists; split; [constructor|]. cbn. now rewrite Nat.add_0_r.
     + cbn [forallb] in Hw. apply andb_prop in Hw as [Ht Hr].
       bstep He p1 E1. destruct p1 as [sg1 s1].
       unfold compile_stmts in Hc |- *. cbn [seq_code] in Hc |- *.
       fold (compile_stmts r (base + length (compile_stmt t base lc)) lc) in Hc |- *.
-      destruct (IHs t Ht _ _ _ _ E1 base lc stk escs caps its calls ltac:(eapply code_at_app_l; eauto)) as [-> S1].
+      destruct (IHs inl t Ht _ _ _ _ E1 base lc stk escs caps its calls ltac:(eapply code_at_app_l; eauto) Hin Hf) as [σ1 [S1 P1]].
       apply code_at_app_r in Hc.
-      destruct (IHl r Hr _ _ _ _ He _ lc stk escs caps its calls Hc) as [-> S2].
-      split; [reflexivity|].
-      eapply star_trans; [exact S1|]. eapply star_eq; [exact S2|]. f_equal. rewrite app_length. lia.
+      destruct sg1.
+      * cbn [post] in P1. subst σ1.
+        assert (Hf1 : lc_fits lc (length (s_env s1)) (length escs) (length caps)).
+        { apply exec_R_proof in E1. destruct E1 as [_ L]. rewrite L. exact Hf. }
+        destruct (IHl inl r Hr _ _ _ _ He _ lc stk escs caps its calls Hc Hin Hf1) as [σ2 [S2 P2]].
+        exists σ2. split; [eapply star_trans; eauto|].
+        eapply post_endpc; [|exact P2]. left. rewrite app_length. lia.
+      * inversion He; subst. exists σ1. split; [exact S1|]. eapply post_endpc; [|exact P1]. right. discriminate.
+      * inversion He; subst. exists σ1. split; [exact S1|]. eapply post_endpc; [|exact P1]. right. discriminate.
 Qed.
 
 End SimStmt.
@@ -774,12 +1359,13 @@ Proof.
 Qed.
 
 Lemma template_sim c fuel body s :
-  forallb l2_stmt body = true -> Interp.run c fuel body = Ok s ->
+  forallb (l2_stmt false) body = true -> Interp.run c fuel body = Ok s ->
   exists n, run_template c n (compile_template body) = Ok s.
 Proof.
   intros Hw Hr. unfold Interp.run in Hr. bstep Hr p E. destruct p as [sg s1]. inversion Hr; subst.
-  destruct (proj2 (stmts_sim c (compile_template body) fuel) body Hw _ _ _ _ E 0 None [] [] [] [] []
-              (code_at_whole _)) as [_ S1].
-  destruct (star_run _ _ _ _ S1 eq_refl) as [n Hn].
+  destruct (proj2 (stmts_sim2 c (compile_template body) fuel) false body Hw _ _ _ _ E 0 None [] [] [] [] []
+              (code_at_whole _) ltac:(discriminate) I) as [σ' [S1 P1]].
+  destruct sg; cbn [post] in P1; [|destruct P1 as [l [Hl _]]; discriminate|destruct P1 as [l [Hl _]]; discriminate].
+  subst σ'. destruct (star_run _ _ _ _ S1 eq_refl) as [n Hn].
   exists n. unfold run_template, init_vm. rewrite Hn. reflexivity.
 Qed.
